@@ -494,12 +494,14 @@ pub fn gen_ops(t: &mut Tape) -> Gen {
 }
 
 fn var_len(t: &mut Tape) -> usize {
-    match t.below(8) {
+    match t.below(9) {
         0 => 0,
         1 => t.range(1, 10),
         2 => *t.pick(&[180usize, 185, 186, 190, 191, 192, 193]),
         3 => *t.pick(&[8370usize, 8377, 8378, 8383, 8384, 8385]),
         4 => t.range(0, 70_000),
+        // the legacy header's one / two / four octet length switches
+        5 => *t.pick(&[254usize, 255, 256, 257, 65_534, 65_535, 65_536, 65_537]),
         _ => t.range(0, 2000),
     }
 }
